@@ -644,7 +644,23 @@ exp4 = exp3.copy(); exp4[0, 4] = 0.0; exp4[0, 0] = 50.0
 fourth = det.charge.array.copy()
 if first[0, 4] != 5.0 or not np.array_equal(second, exp) or not np.array_equal(third, exp3) or not np.array_equal(fourth, exp4):
     VIOLATED, DETAIL = True, f'after set_frame_values x10: {second.tolist()} (want {exp.tolist()}); after removing cluster 1: {third.tolist()}; after moving cluster 0: {fourth.tolist()}'
+# removals in a row (the labels have gaps after the first one), an id that is not there, and a removal after a further addition
+det = VP.detector(rows=4, cols=5)
+amounts = np.array([1.0, 2.0, 4.0, 8.0, 16.0]); pos = np.array([0.5, 1.5, 2.5, 3.5, 0.5]); hp = np.array([0.5, 1.5, 2.5, 3.5, 4.5]); z = np.zeros(5)
+det.charge.add_charge(particle_type='e', particles_per_cluster=amounts, init_energy=z, init_ver_position=pos, init_hor_position=hp, init_z_position=z, init_ver_velocity=z, init_hor_velocity=z, init_z_velocity=z)
+alive = {i: (int(pos[i]), int(hp[i]), amounts[i]) for i in range(5)}
+for ids in ([0], [2], [7], [3, 4]):
+    det.charge.remove_from_frame(id_list=list(ids))
+    for i in ids: alive.pop(i, None)
+    want = np.zeros((4, 5))
+    for r, c, a in alive.values(): want[r, c] += a
+    got = det.charge.array
+    if (alive or got.shape == want.shape) and not np.array_equal(got, want) and not VIOLATED:
+        VIOLATED, DETAIL = True, f'after remove_from_frame({ids}) (clusters left by id: {sorted(alive)}): charge.array = {np.asarray(got).tolist()}, sum of the clusters left = {want.tolist()}'
 """, "expect": "every read of charge.array reflects the cluster table at that moment (in-place edits included)"}
+
+
+DROP_LABEL = z3.Function("table_without_label", z3.IntSort(), z3.IntSort(), z3.IntSort())
 
 
 @unit("C14", "array.current")
@@ -679,6 +695,25 @@ def array_current(u: Unit):
             t = f.self_val
             if f.name == "df.query" and ex.truth(kwargs.get("inplace", VBool(False))) is not True:
                 return D.df_obj(ex, ex.st.fresh_int("n_selected"))
+            if f.name == "df.query":
+                # the only selection under contract: "index not in <ids>" = drop the rows whose index LABEL is in ids (pandas contract);
+                # any other expression text is outside it (undecided, the bounded stand-in runs)
+                e = args[0] if args else kwargs.get("expr")
+                ids = None
+                if isinstance(e, VStr) and z3.is_expr(e.v) and e.v.decl().kind() == z3.Z3_OP_SEQ_CONCAT and e.v.num_args() == 2 and z3.is_string_value(e.v.arg(0)) \
+                        and e.v.arg(0).as_string() == "index not in ":
+                    ids = next((ev[2] for ev in ex.st.events if ev[0] == "fmt" and z3.eq(ev[1], e.v.arg(1))), None)
+                items = ex.try_list(ids) if ids is not None else None
+                if items is None or not all(isinstance(x, VInt) for x in items):
+                    raise Unsupported("DataFrame.query(inplace=True) with an expression other than 'index not in <list of ids>'")
+                c = z_int(t.info["content"])
+                for x in items:
+                    c = DROP_LABEL(c, z_int(x.v))
+                t.info["content"] = c
+                n = ex.st.fresh_int("n_left")
+                ex.st.assume(z3.And(n >= 1, n <= z_int(t.info["nrows"])))
+                t.info["nrows"] = n
+                return NONE
             t.info["content"] = ex.st.fresh_int("df_content_after_edit")
             if f.name == "df.query":
                 n = ex.st.fresh_int("n_left")
@@ -723,6 +758,8 @@ def array_current(u: Unit):
                     st.assume(z3.Int("n_clusters2") > 0)
                     ex.call(ex.getattr(ch, "add_charge_dataframe", fr0), [D.df_obj(ex, z3.Int("n_clusters2"))], {}, fr0)
                 hold["want"] = st.cell(ch).fields["_frame"].info["content"]
+                if edit == "remove_from_frame(ids)":
+                    hold["want_spec"] = DROP_LABEL(z_int(hold["t1"]), z3.Int("removed_id"))
                 hold["same_object"] = st.cell(ch).fields["_frame"] is now
             except PyExc as pe:
                 hold["failed"] = ex.exc_class_name(pe.val)
@@ -739,4 +776,6 @@ def array_current(u: Unit):
             u.oblige(p, f"array.current[{edit}].first_read", to_real(f1.elem(g)) == BIN(hold["t1"], g[0], g[1]), {}, CURRENT_REPLAY, fnq=fg.qualname)
             u.oblige(p, f"array.current[{edit}].read_after", z3.And(to_real(out.elem(g)) == BIN(hold["want"], g[0], g[1]), z_int(out.shape[0]) == D.ROWS, z_int(out.shape[1]) == D.COLS),
                      {"table": edit, "same DataFrame object": hold.get("same_object")}, CURRENT_REPLAY, fnq=fg.qualname)
+            if edit == "remove_from_frame(ids)":
+                u.oblige(p, f"array.current[{edit}].drops_the_rows_with_these_labels", z_int(hold["want"]) == hold["want_spec"], {"removed_id": z3.Int("removed_id")}, CURRENT_REPLAY, fnq=fg.qualname)
         u.cover(f"array.current.cover[{edit}]", ps, lambda p: p.kind == "return")
